@@ -190,6 +190,24 @@ fn cmd_replay(path: &str, dump: bool, fresh: bool) -> i32 {
         if v["kind"].as_str() == Some("miri") {
             return cmd_replay_miri(&v, dump);
         }
+        if v["build"].as_str() == Some("default-features") && cfg!(feature = "async_flavour") {
+            // found by the harness built against the default feature set: replay it there
+            let mut c = std::process::Command::new(default_features_bin());
+            c.arg("replay").arg(path);
+            if dump {
+                c.arg("--dump");
+            }
+            if fresh {
+                c.arg("--fresh");
+            }
+            return match c.status() {
+                Ok(st) => st.code().unwrap_or(2),
+                Err(e) => {
+                    eprintln!("HARNESS-ERROR: cannot run {}: {} (./dst builds it)", default_features_bin().display(), e);
+                    2
+                }
+            };
+        }
     }
     let rf: ReplayFile = match serde_json::from_str(&s) {
         Ok(r) => r,
@@ -287,9 +305,15 @@ fn cmd_check(prop: &str, tier: &str) -> i32 {
     let t0 = std::time::Instant::now();
     crate::gen::THOROUGH.store(tier == "thorough", std::sync::atomic::Ordering::SeqCst);
     let seed = base_seed();
+    let sub = !cfg!(feature = "async_flavour");
     let n = tier_runs(prop, tier);
     let workers = std::env::var("DST_WORKERS").ok().and_then(|s| s.parse().ok()).unwrap_or(16usize);
-    let cap = if tier == "thorough" { 900 } else { 150 };
+    let cap = match (tier == "thorough", sub) {
+        (true, false) => 900,
+        (true, true) => 300,
+        (false, false) => 150,
+        (false, true) => 60,
+    };
     let props: Vec<String> = vec![prop.to_string()];
     let agg = batch(prop, seed, n, workers, cap, &props);
     let known = load_known();
@@ -323,7 +347,7 @@ fn cmd_check(prop: &str, tier: &str) -> i32 {
         let plan: Plan = crate::gen::gen_plan(prop, *s, *i);
         match minimise(&plan, v, &props, 400) {
             Some(rf) => {
-                let name = format!("{}-{}-{}.json", prop, rule, s);
+                let name = format!("{}-{}-{}{}.json", prop, rule, s, if sub { "-default-features" } else { "" });
                 let path = replay_dir.join(name);
                 std::fs::write(&path, serde_json::to_string_pretty(&rf).unwrap()).unwrap();
                 println!("VIOLATION property={} replay={}", prop, path.display());
@@ -338,9 +362,24 @@ fn cmd_check(prop: &str, tier: &str) -> i32 {
             }
         }
     }
+    if sub {
+        // this is the third stage, run by the main binary: report and leave the evidence to it
+        let faults: BTreeMap<&String, &u64> = agg.faults.iter().filter(|(_, v)| **v > 0).collect();
+        println!(
+            "STAGE-SUMMARY {}",
+            serde_json::json!({"runs": agg.runs, "distinct_event_histories": agg.log_hashes.len(), "distinct_nontrivial": agg.nontrivial_sigs.len(), "checkpoint_states": agg.state_hashes.len(), "violations": new_violations, "known": known_hits, "scenario_families": agg.families, "fault_and_event_counts": faults, "wall_s": t0.elapsed().as_secs_f64()})
+        );
+        return if new_violations > 0 { 1 } else { exit };
+    }
     let (miri_ev, miri_viol) = miri_stage(prop, tier, seed);
     new_violations += miri_viol;
+    let (df_ev, df_viol, df_exit) = default_features_stage(prop, tier, n);
+    new_violations += df_viol;
+    if df_exit == 2 {
+        exit = 2;
+    }
     let wall = t0.elapsed().as_secs_f64();
+    let miri_ev = serde_json::json!({"miri": miri_ev, "default_features": df_ev});
     write_evidence(prop, tier, seed, &agg, wall, new_violations, known_hits, &reported, &miri_ev);
     println!(
         "{} {}: runs={} distinct_schedules={} distinct_histories={} nontrivial_distinct={} checkpoint_states={} violations={} known={} wall={:.1}s",
@@ -360,6 +399,75 @@ fn cmd_check(prop: &str, tier: &str) -> i32 {
     } else {
         exit
     }
+}
+
+fn default_features_bin() -> std::path::PathBuf {
+    std::env::current_exe().ok().and_then(|p| p.parent().and_then(|d| d.parent()).and_then(|d| d.parent()).map(|d| d.join("target-sync/release/dst"))).unwrap_or_else(|| verif_dir().join("target-sync/release/dst"))
+}
+
+/// Third stage: the same families, schedules and oracles on the harness built against the
+/// library's DEFAULT feature set (`sync` only - what `stretto = "0.8"` gives a user), a tenth of
+/// the runs.  The main stage compiles the crate with `sync` + `async`; code under
+/// `#[cfg(feature = ...)]` can differ between the two builds.
+fn default_features_stage(prop: &str, tier: &str, n: u64) -> (serde_json::Value, usize, i32) {
+    if prop == "C19" {
+        return (serde_json::json!({"status": "not applicable: C19 compares the two flavours, which needs both features"}), 0, 0);
+    }
+    if std::env::var("DST_NO_DEFAULT_FEATURES_STAGE").is_ok() {
+        return (serde_json::json!({"status": "skipped (DST_NO_DEFAULT_FEATURES_STAGE)"}), 0, 0);
+    }
+    let bin = default_features_bin();
+    let runs = std::env::var("DST_RUNS").ok().and_then(|s| s.parse::<u64>().ok()).unwrap_or(n) / 10;
+    let runs = runs.max(500);
+    let out = std::process::Command::new(&bin)
+        .args(["check", prop, "--tier", tier])
+        .env("DST_RUNS", runs.to_string())
+        .env("DST_NO_MIRI", "1")
+        .output();
+    let out = match out {
+        Ok(o) => o,
+        Err(e) => {
+            eprintln!("HARNESS-ERROR: cannot run the default-features build of the harness ({}): {} - ./dst builds it", bin.display(), e);
+            return (serde_json::json!({"status": "harness error: binary missing"}), 0, 2);
+        }
+    };
+    let text = String::from_utf8_lossy(&out.stdout).to_string();
+    let mut summary = serde_json::json!({});
+    let mut viol = 0usize;
+    let mut pass = false;
+    for l in text.lines() {
+        if let Some(j) = l.strip_prefix("STAGE-SUMMARY ") {
+            summary = serde_json::from_str(j).unwrap_or(serde_json::json!({}));
+            continue;
+        }
+        if l.starts_with("VIOLATION ") {
+            viol += 1;
+            pass = true;
+            println!("{}", l);
+        } else if l.starts_with("KNOWN-FINDING") {
+            pass = false;
+            println!("{}", l);
+        } else if pass && l.starts_with("  ") {
+            println!("{} (default-features build)", l);
+        } else {
+            pass = false;
+        }
+    }
+    let err = String::from_utf8_lossy(&out.stderr);
+    for l in err.lines().filter(|l| l.starts_with("HARNESS-ERROR")) {
+        eprintln!("{} (default-features build)", l);
+    }
+    let code = out.status.code().unwrap_or(2);
+    let mut ev = serde_json::json!({
+        "engine": "the same simulator, families and oracles; harness and shadow library built with --no-default-features (library feature set: sync), Cache only",
+        "status": if code == 0 { "held" } else if code == 1 { "violation" } else { "harness error" },
+    });
+    if let (Some(a), Some(b)) = (ev.as_object_mut(), summary.as_object()) {
+        for (k, v) in b {
+            a.insert(k.clone(), v.clone());
+        }
+    }
+    (ev, viol, if code == 2 { 2 } else { 0 })
 }
 
 /// Second stage for a few properties: tiny multi-threaded scenarios of the UNHOOKED library under
@@ -513,7 +621,8 @@ fn write_evidence(prop: &str, tier: &str, seed: u64, agg: &Agg, wall: f64, viola
             "flavour_split": agg.flavors,
             "violations_of_other_properties_seen_in_these_runs": agg.other_prop_violations,
             "reported": reported,
-            "second_stage_miri": miri,
+            "second_stage_miri": miri["miri"],
+            "third_stage_default_feature_set": miri["default_features"],
             "known_findings_matched": known,
             "real_components": ["stretto cache, store, ttl, policy, ring, sketch, bbloom, metrics, histogram, utils (working tree of /repo)", "parking_lot locks", "wg wait groups", "async flavour: async-channel, futures::select!, event-listener, wg::AsyncWaitGroup"],
             "stubbed_components": ["OS scheduler (baton scheduler, one task at a time)", "std::thread::spawn / executor spawner", "wall clock (SystemTime)", "monotonic clock (std::time::Instant: clock_gettime is defined by the harness binary and reads the virtual clock during a run)", "crossbeam tick / async-io Timer", "sync flavour: crossbeam-channel and select! (simulator channel)"],
